@@ -502,7 +502,10 @@ def gen_longhaul(rng):
             'event_register': bool(rng.getrandbits(1))}
     regs['R']['R6usr'] = G.DATA + 0x400
     core = {'config': cfg, 'devices': devices, 'regs': regs}
-    return {'scenario': 'longhaul', 'cores': [core], 'n1': rng.randrange(1000, 140000), 'k': rng.randrange(10000, 70000), 'events': []}
+    k = rng.randrange(10000, 70000)
+    # events sent through the public API (send_event_local) at seeded steps after the snapshot, to the original and to both copies alike
+    sev = sorted(rng.sample(range(0, min(k, 3000)), rng.choice([0, 1, 2, 4])))
+    return {'scenario': 'longhaul', 'cores': [core], 'n1': rng.randrange(1000, 140000), 'k': k, 'events': [], 'sev_at': sev}
 
 
 def run_longhaul(case):
@@ -522,7 +525,12 @@ def run_longhaul(case):
     armB.is_wait_for_event, armB.is_wait_for_interrupt = arm.is_wait_for_event, arm.is_wait_for_interrupt
     armA = copy.deepcopy(arm)
     digs = []
+    sev_at = set(case.get('sev_at', ()))
     for j in range(case['k']):
+        if j in sev_at:
+            for a_ in (arm, armA, armB):
+                a_.send_event_local()
+            res['stats']['fault.sev'] = res['stats'].get('fault.sev', 0) + 1
         step(arm)
         step(armA)
         step(armB)
